@@ -1,6 +1,7 @@
 //! get_maven_dependencies on generated POM universes, against the reference resolver and the model.
 use std::collections::HashMap;
 use std::future::Future;
+use std::str::FromStr;
 use std::sync::atomic::{AtomicUsize, Ordering};
 use anyhow::{bail, Context, Result};
 use fbh::gal::*;
@@ -24,7 +25,9 @@ impl Downloader for Dl {
 	}
 }
 
-pub struct ImplAnswer { pub found: Result<Vec<(usize, ACoord, u8)>, String>, pub gallina: String, pub budget_hit: bool }
+pub struct ImplAnswer { pub found: Result<Vec<(usize, ACoord, u8)>, String>, pub gallina: String, pub budget_hit: bool,
+	/// print/parse round trip of every resolved dependency: failures, and (printed form as a Gallina case) samples
+	pub roundtrip_failures: Vec<String>, pub prints: Vec<String> }
 
 /// serve the universe as XML and ask the crate
 pub fn ask_impl(u: &Universe, budget: usize) -> Result<ImplAnswer> {
@@ -45,18 +48,34 @@ pub fn ask_impl(u: &Universe, budget: usize) -> Result<ImplAnswer> {
 	let resolvers: Vec<Resolver> = u.repos.iter().map(|r| Resolver { name: r.name.clone().into(), maven: r.maven.clone().into() }).collect();
 	let roots: Vec<_> = u.roots.iter().map(|(c, s)| (to_coord(c), ALL_SCOPES[*s as usize])).collect();
 	let rt = tokio::runtime::Builder::new_current_thread().build()?;
+	let rt_fail = std::cell::RefCell::new(vec![]);
+	let prints = std::cell::RefCell::new(vec![]);
 	let res = guarded(std::panic::AssertUnwindSafe(|| {
 		rt.block_on(get_maven_dependencies(&dl, &resolvers, &roots)).map(|v: Vec<FoundDependency>| {
 			let g = glist(v.iter().map(g_found));
+			for d in &v {
+				let text = format!("{d}");
+				let want = FoundDependency { resolver: Resolver { name: d.resolver.maven.clone(), maven: d.resolver.maven.clone() }, coord: d.coord.clone(), scope: d.scope };
+				match FoundDependency::try_from(text.as_str()) {
+					Ok(b) if b == want => {}
+					other => rt_fail.borrow_mut().push(format!("resolved dependency {d:?}\nprinted {text:?}\nparsed {other:?}")),
+				}
+				match maven_dependency_resolver::coord::MavenCoord::from_str(&format!("{}", d.coord)) {
+					Ok(b) if b == d.coord => {}
+					other => rt_fail.borrow_mut().push(format!("coordinate {:?}\nprinted {:?}\nparsed {other:?}", d.coord, format!("{}", d.coord))),
+				}
+				if prints.borrow().len() < 2 { prints.borrow_mut().push(format!("CFoundPrint {} {}", g_found(d), gs(&text))); }
+			}
 			let f: Vec<(usize, ACoord, u8)> = v.iter().map(|d| (resolvers.iter().position(|r| *r == d.resolver).unwrap_or(usize::MAX), of_coord(&d.coord), scope_idx(d.scope) as u8)).collect();
 			(g, f)
 		}).map_err(|e| format!("{e:#}"))
 	}));
 	let budget_hit = dl.calls.load(Ordering::SeqCst) > budget;
+	let (roundtrip_failures, prints) = (rt_fail.into_inner(), prints.into_inner());
 	Ok(match res {
-		Err(p) => ImplAnswer { found: Err(format!("PANIC {p}")), gallina: "Err".into(), budget_hit },
-		Ok(Err(e)) => ImplAnswer { found: Err(e), gallina: "Err".into(), budget_hit },
-		Ok(Ok((g, f))) => ImplAnswer { found: Ok(f), gallina: format!("(Ok {g})"), budget_hit },
+		Err(p) => ImplAnswer { found: Err(format!("PANIC {p}")), gallina: "Err".into(), budget_hit, roundtrip_failures, prints },
+		Ok(Err(e)) => ImplAnswer { found: Err(e), gallina: "Err".into(), budget_hit, roundtrip_failures, prints },
+		Ok(Ok((g, f))) => ImplAnswer { found: Ok(f), gallina: format!("(Ok {g})"), budget_hit, roundtrip_failures, prints },
 	})
 }
 
@@ -71,8 +90,15 @@ fn show_found(u: &Universe, v: &[(usize, ACoord, u8)]) -> String {
 
 /// compare with the documented rules; returns whether the case was non-trivial
 fn oracle(r: &mut Report, u: &Universe, ans: &ImplAnswer, what: &str) -> bool {
-	let (want, _) = reference::resolve(u, 100_000);
+	let (want, _, st) = reference::resolve_stats(u, 100_000);
+	if st.conflict_equal_depth { r.count("graph_conflict_equal_depth"); }
+	if st.conflict_different_depth { r.count("graph_conflict_different_depth"); }
+	if st.diamond { r.count("graph_diamond_same_version"); }
+	if st.pruned_subtree { r.count("graph_rival_with_subtree"); }
 	let want_t: Result<Vec<(usize, ACoord, u8)>, ()> = want.map(|v| v.into_iter().map(|RFound { repo, coord, scope }| (repo, coord, scope)).collect());
+	for f in &ans.roundtrip_failures {
+		r.violation(format!("{what}: a resolved dependency does not survive printing and re-parsing"), format!("property C19 ({what})\n{f}\n"));
+	}
 	if let Err(e) = &ans.found { if e.starts_with("PANIC") { r.violation(format!("get_maven_dependencies panicked: {e}"), format!("property C19 ({what})\n{}", u.replay())); return false; } }
 	match (&ans.found, &want_t) {
 		(Ok(got), Ok(want)) => {
@@ -90,6 +116,35 @@ fn oracle(r: &mut Report, u: &Universe, ans: &ImplAnswer, what: &str) -> bool {
 		(Ok(got), Err(())) => { r.violation(format!("{what}: get_maven_dependencies succeeds although a needed POM is missing, unusable or incomplete"), format!("property C19 ({what})\n{}crate answered:\n{}\n", u.replay(), show_found(u, got))); false }
 		(Err(e), Ok(want)) => { r.violation(format!("{what}: get_maven_dependencies fails ({e}) where the documented rules resolve"), format!("property C19 ({what})\n{}documented rules give:\n{}\n", u.replay(), show_found(u, want))); false }
 	}
+}
+
+/// ranks of the documents: longest chain of references below their (group, artifact); None when cyclic
+pub fn ranks(u: &Universe) -> Option<Vec<(String, u64)>> {
+	use std::collections::{BTreeMap, BTreeSet};
+	let mut refs: BTreeMap<(String, String), BTreeSet<(String, String)>> = BTreeMap::new();
+	for r in &u.repos { for ((g, a, _), e) in &r.files {
+		let set = refs.entry((g.clone(), a.clone())).or_default();
+		if let Entry::Pom(p) = e {
+			if let Some((pg, pa, _)) = &p.parent { set.insert((pg.clone(), pa.clone())); }
+			for d in p.dm.iter().chain(p.deps.iter()) { set.insert((d.group.clone(), d.artifact.clone())); }
+		}
+	} }
+	fn rank(k: &(String, String), refs: &BTreeMap<(String, String), BTreeSet<(String, String)>>, memo: &mut BTreeMap<(String, String), Option<u64>>, depth: usize) -> Option<u64> {
+		if depth > refs.len() + 1 { return None; }
+		if let Some(x) = memo.get(k) { return *x; }
+		let mut best = 0u64;
+		if let Some(set) = refs.get(k) { for t in set { if refs.contains_key(t) { best = best.max(rank(t, refs, memo, depth + 1)? + 1); } } }
+		memo.insert(k.clone(), Some(best));
+		Some(best)
+	}
+	let mut memo = BTreeMap::new();
+	let mut out = vec![];
+	for r in &u.repos { for ((g, a, v), _) in &r.files {
+		let k = rank(&(g.clone(), a.clone()), &refs, &mut memo, 0)?;
+		let url = pom_url(&r.maven, g, a, v);
+		if !out.iter().any(|(x, _): &(String, u64)| *x == url) { out.push((url, k)); }
+	} }
+	Some(out)
 }
 
 // ---------- fixed universes ----------
@@ -185,7 +240,7 @@ fn key_of(d: &ADep) -> (String, String, Option<String>, String) {
 }
 
 pub fn gen_universe(rng: &mut Rng, stream: Stream) -> Universe {
-	let nl = rng.range(2, 6);
+	let nl = rng.range(2, 7);
 	let mut libs: Vec<Lib> = vec![];
 	for i in 0..nl {
 		// the last libraries are the ones everybody may refer to; make a few of them parents/BOMs
@@ -262,7 +317,7 @@ pub fn gen_universe(rng: &mut Rng, stream: Stream) -> Universe {
 			let inherited: Vec<_> = parent_eff.as_ref().map_or(vec![], |pe| pe.declared.iter().map(key_of).collect());
 			// dependencies
 			if !higher.is_empty() {
-				let nd = match rng.below(8) { 0 => 0, 1 | 2 => 1, 3 | 4 | 5 => 2, 6 => 3, _ => 4 };
+				let nd = match rng.below(8) { 0 => 0, 1 => 1, 2 | 3 => 2, 4 | 5 => 3, 6 => 4, _ => 5 };
 				for _ in 0..nd {
 					let mut d;
 					if !managed.is_empty() && rng.chance(2, 5) {
@@ -379,6 +434,14 @@ pub fn generated_cases(r: &mut Report, rng: &mut Rng, n: usize) -> Result<()> {
 		if u.repos.iter().flat_map(|x| x.files.iter()).any(|(_, e)| matches!(e, Entry::Pom(p) if p.deps.iter().any(|d| d.version.is_none()))) { r.count("universe_with_managed_version"); }
 		if u.repos.len() > 1 { r.count("universe_multi_repo"); }
 		r.case(name, case_text(&u, &ans));
+		if stream == Stream::Valid { for p in &ans.prints { r.case("resolved-print", p.clone()); } }
+		if stream == Stream::Valid && i % 5 == 0 {
+			// the generated universe satisfies the decidable hypothesis of the fuel theorem
+			match ranks(&u) {
+				Some(rk) => r.case("acyclic-check", format!("CAcyclic {} {} {}", u.g_resolvers(), u.g_files(), glist(rk.iter().map(|(url, k)| format!("({}, {k})", gs(url)))))),
+				None => bail!("a universe of the valid stream is cyclic:\n{}", u.replay()),
+			}
+		}
 		i += 1;
 	}
 	Ok(())
